@@ -1,6 +1,6 @@
 #!/bin/bash
 # developer helper: refresh the Makefile and build the given targets (default: all)
-cd /verif/rocq
+cd "$(dirname "$(readlink -f "$0")")"
 (cat _CoqProject; find theories -name '*.v' | sort) > _CoqProject.all
 coq_makefile -f _CoqProject.all -o Makefile 2>&1 | grep -v conda
 mkdir -p ../ocaml/build
